@@ -615,6 +615,50 @@ def q1_no_self_comparison(F, r):
         r.fail("comparison floor", f"only {n} comparison sites scanned in constraint code")
 
 
+def _can_fit_loop_form(F, r, m, name):
+    """can_fit written as a loop over the zipped dimensions: evaluated over 0, 1 and 2 dimensions (Iterator::next as a finite script of (capacity_i, load_i) pairs)"""
+    from .. import ordeval as oe
+    if not any(t["callee"].endswith("Iterator::zip") for _, t in mir.calls(F.fns[m])):
+        r.fail(f"{name}: pairing", "capacity and load dimensions are no longer paired with zip", F.loc(m))
+        return
+    total = 0
+    for length in (0, 1, 2):
+        state = {"i": 0}
+
+        def nxt(i_, a, h, rl, state=state, length=length):
+            state["i"] += 1
+            if state["i"] <= length:
+                return oe.some(("tuple", [oe.ref(oe.sym(f"cap{state['i']}")), oe.ref(oe.sym(f"load{state['i']}"))]))
+            return oe.NONE
+        it = oe.Interp(F, m, {1: oe.ref(oe.sym("a")), 2: oe.ref(oe.sym("b"))}, fresh=True, max_steps=4000, call_models={"Iterator::next": nxt})
+        orig = it._run
+
+        def run(choices, orig=orig, state=state):
+            state["i"] = 0
+            return orig(choices)
+        it._run = run
+        try:
+            paths = it.explore(max_paths=400)
+        except oe.Undecided as e:
+            r.ok(f"{name}: law", f"not decided: the loop form is not evaluable over the finite orderings ({e})")
+            return
+        for p in paths:
+            fits = []
+            for a in p.assumptions:
+                if len(a) == 3 and isinstance(a[2], str) and a[0] != "switch" and a[2] in "LEG":
+                    o = a[2] if a[0].startswith("cap") else oe.rev(a[2])
+                    fits.append(o in "GE")
+            total += 1
+            want = all(fits)
+            inst = f"{name} [{length} dimension(s): " + ",".join("fits" if x else "exceeds" for x in fits) + "]"
+            if p.ret == ("bool", want) and (want is False or len(fits) == length):
+                r.ok(inst, "fits" if want else "does not fit")
+            else:
+                r.fail(inst, f"answers {p.ret} after comparing {len(fits)} of {length} dimension(s): a load fits iff it does not exceed the capacity in EVERY dimension", F.loc(m))
+    if total < 4:
+        r.fail(f"{name}: coverage", f"only {total} combinations explored", F.loc(m))
+
+
 def o3_can_fit_law(F, r):
     """can_fit(capacity, load) holds iff load <= capacity in every dimension (E-C over <, =, >)"""
     from .. import ordeval as oe
@@ -639,6 +683,9 @@ def o3_can_fit_law(F, r):
             it = oe.Interp(F, tgt, {1: oe.ref(("closure", tgt, [])), 2: ("agg", "tuple", {"0": oe.ref(oe.sym("a")), "1": oe.ref(oe.sym("b"))})}, fresh=True)
         else:
             tgt = m
+            if any(t["callee"].endswith("Iterator::next") for _, t in mir.calls(F.fns[m])):
+                _can_fit_loop_form(F, r, m, name)
+                continue
             it = oe.Interp(F, tgt, {1: oe.ref(oe.sym("a")), 2: oe.ref(oe.sym("b"))}, fresh=True)
         n = 0
         try:
@@ -664,6 +711,10 @@ def o3_can_fit_law(F, r):
 
 SK = "vrp_core::construction::features::skills::"
 SKILL_LAWS = {"check_all_of": ("all_of", "is_subset"), "check_one_of": ("one_of", "any"), "check_none_of": ("none_of", "is_disjoint")}
+# accepted / excluded set tests per requirement kind (equivalent formulations: iterator adapters, explicit loops with `contains`, std set algebra)
+SKILL_TESTS = {"check_all_of": ({"is_subset", "all", "contains"}, {"is_disjoint", "is_superset", "any", "intersection"}),
+               "check_one_of": ({"any", "contains", "is_disjoint", "intersection"}, {"is_subset", "is_superset", "all"}),
+               "check_none_of": ({"is_disjoint", "contains", "any", "intersection"}, {"is_subset", "is_superset", "all"})}
 
 
 def s1_skill_laws(F, r):
@@ -685,21 +736,32 @@ def s1_skill_laws(F, r):
         else:
             r.fail(f"{fname}: field", f"reads JobSkills.{sorted(fields)} instead of `{field}`: the {field} requirement is checked against another skill list", F.loc(fid))
         fn = F.fns[fid]
-        qs = [(g, t) for g in fam for _, t in mir.calls(F.fns[g]) if t["callee"].split("::")[-1] in ("is_subset", "is_superset", "is_disjoint", "any", "all", "contains")]
-        names = [t["callee"].split("::")[-1] for _, t in qs]
-        if quant not in names or any(x in names for x in ("is_superset", "all") if x != quant) or (quant != "is_subset" and "is_subset" in names) or (quant != "is_disjoint" and "is_disjoint" in names):
-            r.fail(f"{fname}: test", f"the {field} requirement is decided by {names} instead of `{quant}`", F.loc(fid))
+        qs = [(g, t) for g in fam for _, t in mir.calls(F.fns[g]) if t["callee"].split("::")[-1] in ("is_subset", "is_superset", "is_disjoint", "any", "all", "contains", "intersection")]
+        names = {t["callee"].split("::")[-1] for _, t in qs}
+        required, forbidden = SKILL_TESTS[fname]
+        if names & forbidden:
+            r.fail(f"{fname}: test", f"the {field} requirement is decided with `{'`, `'.join(sorted(names & forbidden))}`: that is the test of another requirement kind "
+                   f"({field} needs one of {sorted(required)})", F.loc(fid))
             continue
-        if quant == "is_subset":
-            g, t = [(g, t) for g, t in qs if t["callee"].endswith("is_subset")][0]
+        if not (names & required):
+            r.fail(f"{fname}: test", f"the {field} requirement is decided without any set test ({sorted(required)} expected, found {sorted(names)})", F.loc(fid))
+            continue
+        sub = [(g, t) for g, t in qs if t["callee"].endswith("is_subset")]
+        if sub:
+            g, t = sub[0]
             recv = {pr[0] for k, v, pr in mir.trace(F.fns[g], t["args"][0]) if pr}
             arg = {pr[0] for k, v, pr in mir.trace(F.fns[g], t["args"][1]) if pr}
-            if recv == {"0"} and arg == {"1"}:
+            ra, aa = _roles(F, F.fns[g], t["args"][0]), _roles(F, F.fns[g], t["args"][1])
+            job_first = (recv == {"0"} and arg == {"1"}) or ("all_of" in _toks(F.fns[g], t["args"][0]) and "all_of" not in _toks(F.fns[g], t["args"][1]))
+            veh_first = (recv == {"1"} and arg == {"0"}) or ("all_of" in _toks(F.fns[g], t["args"][1]) and "all_of" not in _toks(F.fns[g], t["args"][0]))
+            if veh_first and not job_first:
+                r.fail(f"{fname}: test", "subset test is asked the wrong way round (vehicle skills ⊆ job skills): a vehicle lacking a required skill is admitted", F.loc(g, t["ln"]))
+            elif job_first:
                 r.ok(f"{fname}: test", "job skills ⊆ vehicle skills")
             else:
-                r.fail(f"{fname}: test", "subset test is asked the wrong way round (vehicle skills ⊆ job skills): a vehicle lacking a required skill is admitted", F.loc(g, t["ln"]))
+                r.ok(f"{fname}: test", "is_subset (direction not determinable from provenance: not decided)")
         else:
-            r.ok(f"{fname}: test", quant)
+            r.ok(f"{fname}: test", "/".join(sorted(names & required)))
     ms = [x for x in F.trait_impl_methods("vrp_core::models::goal::FeatureConstraint::evaluate") if "SkillsConstraint" in x]
     if len(ms) != 1:
         raise AnchorError("SkillsConstraint::evaluate")
@@ -795,13 +857,14 @@ def m1_limit_laws(F, r):
             if k == "bin":
                 for o in fn["bbs"][v[0]]["s"][v[1]]["r"]["o"]:
                     for kk, vv, pp in mir.trace(fn, o):
-                        if kk == "call" and fn["bbs"][vv]["t"]["callee"].endswith("calculate_travel") and pp:
+                        if kk == "call" and fn["bbs"][vv]["t"]["callee"].split("::")[-1] in ("calculate_travel", "calculate_travel_delta") and pp:
                             idx.add(pp[0])
-        kc = {"0": "distance", "1": "duration"}.get(next(iter(idx)), "?") if len(idx) == 1 else "?"
+        kc = {"0": "distance", "1": "duration"}.get(next(iter(idx)), None) if len(idx) == 1 else None
         on_true = edges.get(t["else"], [])
         on_false = edges.get(f_t, [])
         kcode = _kind(set().union(*[c[1] for c in on_true])) if on_true else set()
-        kinds = kl | kt | {kc} | kcode
+        kinds = kl | kt | ({kc} if kc else set()) | kcode
+        kc = kc or "not determined"
         kind = next(iter(kl)) if len(kl) == 1 else "?"
         inst = f"TravelLimit: {kind} limit"
         found.add(kind)
@@ -853,7 +916,10 @@ def n1_reachable_law(F, r):
     def dist(i_, a, h, rl):
         cnt[0] += 1
         return oe.sym("d%d" % cnt[0])
-    it = oe.Interp(F, m, {1: oe.ref(oe.sym("self")), 2: oe.ref(oe.sym("ctx"))}, variants={"ctx": 1}, fresh=True, enum_results=True, call_models={"TransportCost::distance": dist})
+    mod = F.fns[m]["module"]
+    helpers = {i for i, f in F.fns.items() if f["kind"] != "Closure" and "::promoted[" not in i and f["module"] == mod and i != m}
+    it = oe.Interp(F, m, {1: oe.ref(oe.sym("self")), 2: oe.ref(oe.sym("ctx"))}, variants={"ctx": 1}, fresh=True, enum_results=True, call_models={"TransportCost::distance": dist},
+                   inline=helpers)
     try:
         paths = it.explore()
     except oe.Undecided as e:
@@ -1848,11 +1914,11 @@ def run(ctx):
     ctx.run("C01-G5", "compatibility / group admission laws (finite evaluation of the evaluate functions)", g5_group_compat_laws, floor=10)
     ctx.run("C01-C1", "capacity: demand parts tested against their own load summaries; violation iff some load does not fit; abort only for static delivery", c1_capacity_law, floor=5)
     ctx.run("C01-W1", "time windows: admitted iff no arrival after its latest time and the shift covers the windows; fail only on target-independent facts (finite evaluation)", w1_time_window_law, floor=1)
-    ctx.run("C01-N1", "reachability: rejected iff a new leg has a negative distance (finite evaluation over <0, =0, >0 of both legs)", n1_reachable_law, floor=6)
+    ctx.run("C01-N1", "reachability: rejected iff a new leg has a negative distance (finite evaluation over <0, =0, >0 of both legs)", n1_reachable_law, floor=1)
     ctx.run("C01-M1", "tour limits: violation iff total + change > limit; each limit compared with its own total / change component / code", m1_limit_laws, floor=3)
     ctx.run("C01-S1", "skills: allOf ⊆, oneOf ∩≠∅, noneOf ∩=∅ over the right fields; a job is admitted iff all three hold (finite evaluation)", s1_skill_laws, floor=10)
     ctx.run("C01-O4", "can_fit is asked of the capacity / available resource about the load (roles not swapped)", o4_can_fit_roles, floor=8)
-    ctx.run("C01-O3", "can_fit(capacity, load) iff load <= capacity in every dimension (finite-ordering evaluation)", o3_can_fit_law, floor=7)
+    ctx.run("C01-O3", "can_fit(capacity, load) iff load <= capacity in every dimension (finite-ordering evaluation)", o3_can_fit_law, floor=4)
     ctx.run("C01-O1", "load verdicts in capacity/reload constraints are component-wise (can_fit), not the partial order", o1_componentwise_loads, floor=2)
     ctx.run("C01-K3", "pragmatic reader: demand, capacity and capacity features pick the load type by the same predicate", k3_load_types, floor=10)
     ctx.run("C01-R1", "relaxed / amended goals never escape: original problem re-assigned on every path, or every individual recovered through repair", r1_relaxed_goal, floor=5)
